@@ -299,7 +299,7 @@ Fixpoint enc_loop (l : list keydesc) : outcome string :=
       if seqb (kd_use k) "encryption" then
         match first_cert k with
         | None => Err 30                 (* after fix F6; before it: index out of range *)
-        | Some c => Ok c
+        | Some c => if nonempty c then Ok c else Err 30   (* after fix F17; before it: Ok "" and, in the end, plaintext *)
         end
       else enc_loop r
   end.
@@ -762,30 +762,24 @@ Definition fallback_decision (cp : string -> certres) (l : list keydesc) : encde
   | None => Plain
   end.
 (* what getSPEncryptionCert + Encrypt decide, read off the metadata:
-   the FIRST use="encryption" descriptor decides unless its first certificate
-   is the empty string; then (or when there is none) the first descriptor
+   the FIRST use="encryption" descriptor decides (no certificate element or an
+   empty one: error — fixes F6, F17); when there is none, the first descriptor
    without use and with a non-empty first certificate; else no encryption *)
 Definition enc_decision_decl (cp : string -> certres) (l : list keydesc) : encdec :=
   match first_enc l with
   | Some k =>
       match first_cert k with
       | None => EncErr
-      | Some c => if nonempty c then of_cert (cp c) else fallback_decision cp l
+      | Some c => if nonempty c then of_cert (cp c) else EncErr
       end
   | None => fallback_decision cp l
   end.
 
-(* "the metadata advertises an encryption key": the first use="encryption"
-   descriptor has no certificate element at all or a non-empty one, or some
-   use-less descriptor has a non-empty first certificate.  (An encryption
-   descriptor whose first X509Certificate element is EMPTY does not count: the
-   code then falls through to the use-less descriptors and, finding none,
-   sends the assertion in clear — see enc_empty_cert_is_plain.) *)
+(* "the metadata advertises an encryption key": some descriptor has
+   use="encryption" (whatever its certificate looks like), or some use-less
+   descriptor has a non-empty first certificate *)
 Definition advertises_key_b (l : list keydesc) : bool :=
-  match first_enc l with
-  | Some k => match first_cert k with None => true | Some c => nonempty c end
-  | None => false
-  end
+  match first_enc l with Some _ => true | None => false end
   || match first_unspec l with Some _ => true | None => false end.
 
 (* symbolic decryption: only the recipient's private key opens the record *)
@@ -833,7 +827,8 @@ Definition check_c08 := check_cases c06_agree c08_spec.
 Record spcfg := {
   sp_entity : string;            (* firstSet(sp.EntityID, sp.MetadataURL) *)
   sp_acs : string;               (* sp.AcsURL *)
-  sp_key : option Z;             (* Some k: sp.Certificate is set (key pair k) — advertised for encryption *)
+  sp_key : option Z;             (* Some k: sp.Certificate is set (key pair k) *)
+  sp_key_rsa : bool;             (* the certificate's public key is an RSA key (only then is it advertised for encryption: fix F18) *)
   sp_signs : bool;               (* sp.SignatureMethod != "" *)
   sp_idp_entity : string;        (* sp.IDPMetadata.EntityID *)
   sp_idp_key : Z;                (* the signing key published in the IdP metadata *)
@@ -882,8 +877,8 @@ Definition sp_metadata (sp : spcfg) (cert : string) : spmeta :=
      descriptors := [ {| acs := [ {| ep_binding := post_binding; ep_location := sp_acs sp; ep_index := 1; ep_default := None |};
                                   {| ep_binding := artifact_binding; ep_location := sp_acs sp; ep_index := 2; ep_default := None |} ];
                          kds := match sp_key sp with
-                                | Some _ => {| kd_use := "encryption"; kd_certs := [cert] |}
-                                            :: (if sp_signs sp then [ {| kd_use := "signing"; kd_certs := [cert] |} ] else [])
+                                | Some _ => (if sp_key_rsa sp then [ {| kd_use := "encryption"; kd_certs := [cert] |} ] else [])
+                                            ++ (if sp_signs sp then [ {| kd_use := "signing"; kd_certs := [cert] |} ] else [])
                                 | None => []
                                 end;
                          attr_services := [] |} ] |}.
@@ -946,8 +941,19 @@ Definition c07_agree (c : c07case) : bool :=
   | None => negb (c7_accepted c)
   | Some (n, l) => c7_accepted c && seqb n (c7_nameid c) && list_eqb attribute_eqb l (c7_attrs c)
   end.
+(* every session string consists of XML characters (the property's quantifier) *)
+Definition value_valid (v : attrvalue) : bool := valid_xml_chars (av_type v) && valid_xml_chars (av_value v).
+Definition attribute_valid (a : attribute) : bool :=
+  valid_xml_chars (at_friendly a) && valid_xml_chars (at_name a) && valid_xml_chars (at_format a)
+  && forallb value_valid (at_values a).
+Definition session_valid (s : session) : bool :=
+  valid_xml_chars (ss_index s) && valid_xml_chars (ss_nameid_format s) && valid_xml_chars (ss_nameid s)
+  && forallb attribute_valid (session_attributes empty_svc s).
+(* the property on the implementation's output.  Sessions that are valid but
+   not clean ("]]>" in a string that travels as an XML attribute) fail it: known
+   finding K4, labelled string_class=cdata-end-in-attribute by the harness *)
 Definition c07_spec (c : c07case) : bool :=
-  if session_clean (c7_sess c)
+  if session_valid (c7_sess c)
   then c7_accepted c && seqb (c7_nameid c) (ss_nameid (c7_sess c))
        && list_eqb attribute_eqb (c7_attrs c) (session_attributes empty_svc (c7_sess c))
   else true.
